@@ -170,6 +170,20 @@ CHECKS["C16"] = dict(
          "simplify algorithm is not transcribed (only its observable contract is specified).",
     technique="TLC over all cache query histories + replay; TLA+ property spec of shrinking; trace validation of real simplify() runs")
 
+CHECKS["C18"] = dict(
+    category="model_checking",
+    text="MC_Blueprint.tla: a parameterised validator group under every history of tool operations (Apply(d) with d from a pool of "
+         "conforming and near-miss data, SaveLoad). TLC checks that accepted applications consume parameters in order and that refusals "
+         "and save/load change nothing, and prints every history with the expected outcome of each step and the verdict each handler "
+         "must give once all parameters are applied (computed by Aiken.tla's Eval from the handler bodies, which the harness renders "
+         "into the validator source). Every history is replayed through Blueprint::apply_parameter and serde: accept / refuse / never "
+         "panic, remaining parameters, handlers in step, hash recomputed independently, code changes exactly on accepted applications, "
+         "and the fully applied code (through the blueprint, and by plain application to the original code) decides as the source says.",
+    design_ref="DESIGN.md section 6 C18, section 4.10",
+    note="Validators have three handlers with Data-typed arguments and minimal hand-made V3 script contexts. Addresses are not "
+         "recomputed. One-by-one vs all-at-once application and apply_params_to_script (tx.rs) are not covered.",
+    technique="TLC enumeration of apply / save-load histories with expected outcomes; replay through the real blueprint API")
+
 NOT_BUILT = "not built yet (machinery under construction, see DESIGN.md section 10)"
 
 
